@@ -281,6 +281,8 @@ class Ctx:
             self._declare_enums(sh)
             kind = "list" if p in c.get("list_params", ()) else "array"
             st.env[p] = fresh(sh, p, facts, kind)
+            if isinstance(st.env[p], Seq):
+                st.env[p].root = p
         st.pc.extend(facts)
         self.old_env = dict(st.env)
         ev = Eval(self, self.module, spec=True)
@@ -341,22 +343,131 @@ def coerce_to_shape(val, sh, st):
 
 
 # =============================================================================== discharge
-def prove(hyps, goal, budget):
-    t0 = time.time()
+def ground_apps(terms, prefix):
+    """applications of functions whose name starts with prefix, outside quantifier bodies"""
+    seen = set()
+    out = []
+    stack = list(terms)
+    while stack:
+        t = stack.pop()
+        if t.get_id() in seen:
+            continue
+        seen.add(t.get_id())
+        if z3.is_quantifier(t):
+            continue
+        if z3.is_app(t):
+            if t.decl().name().startswith(prefix) and t.num_args() > 0:
+                out.append(t)
+            stack.extend(t.children())
+    return out
+
+
+def spec_function_lemmas(hyps, goal):
+    """instances of the defining axioms of recursive spec functions (Sum) at the terms that occur
+    in the VC: unfolding at both ends, empty range, and extensionality between pairs of sums."""
+    from . import npmodel
+    extra = []
+    sums = ground_apps(list(hyps) + [goal], "Sum_")
+    done = set()
+    frontier = sums
+    for rnd in range(2):
+        new = []
+        for t in frontier:
+            if t.get_id() in done:
+                continue
+            done.add(t.get_id())
+            arr, lo, hi = t.children()
+            fs = npmodel.sum_facts(arr, lo, hi)
+            extra.extend(fs)
+            new.extend(fs)
+        frontier = [t for t in ground_apps(new, "Sum_") if t.get_id() not in done]
+    for i in range(len(sums)):
+        for j in range(i + 1, len(sums)):
+            a, b = sums[i], sums[j]
+            if a.sort() != b.sort() or a.arg(0).eq(b.arg(0)):
+                continue
+            k = z3.Int(fresh_name("x"))
+            extra.append(z3.Implies(z3.And(a.arg(1) == b.arg(1), a.arg(2) == b.arg(2),
+                                           z3.ForAll([k], z3.Implies(z3.And(k >= a.arg(1), k < a.arg(2)),
+                                                                     z3.Select(a.arg(0), k) == z3.Select(b.arg(0), k)))),
+                                    a == b))
+    # division by a non-constant term: make the defining equation available in division-free form
+    seen = set()
+    stack = list(hyps) + [goal] + extra
+    while stack:
+        t = stack.pop()
+        if t.get_id() in seen or z3.is_quantifier(t) or not z3.is_app(t):
+            continue
+        seen.add(t.get_id())
+        if t.decl().kind() == z3.Z3_OP_DIV and not z3.is_rational_value(t.arg(1)) and not z3.is_int_value(t.arg(1)):
+            extra.append(z3.Implies(t.arg(1) != 0, t * t.arg(1) == t.arg(0)))
+        stack.extend(t.children())
+    return extra
+
+
+def skolemize(hyps, goal):
+    """goal-directed preprocessing: forall-goals get fresh constants, implications move their
+    antecedent to the hypotheses (so that lemma instantiation sees ground terms)."""
+    hyps = list(hyps)
+    for _ in range(12):
+        if z3.is_quantifier(goal) and goal.is_forall():
+            vs = [z3.Const(fresh_name("sk_" + goal.var_name(i)), goal.var_sort(i)) for i in range(goal.num_vars())]
+            goal = z3.substitute_vars(goal.body(), *reversed(vs))
+        elif z3.is_implies(goal):
+            hyps.append(goal.arg(0))
+            goal = goal.arg(1)
+        else:
+            break
+    return hyps, goal
+
+
+def _check(hyps, goal, lem, ms):
     s = z3.Solver()
-    s.set("timeout", int(budget * 1000))
+    s.set("timeout", max(100, int(ms)))
     s.add(*hyps)
     s.add(z3.Not(goal))
+    if lem:
+        s.add(*lem)
     r = s.check()
-    dt = time.time() - t0
+    return r, s
+
+
+def prove(hyps, goal, budget):
+    """unsat -> discharged; sat -> failed (model of the *full* VC); otherwise undecided.
+    Strategy (DESIGN 2.5): skolemise the goal, add instances of spec-function lemmas, z3;
+    on unknown retry with the quantifier-free hypotheses only (a weaker, hence sound, VC)."""
+    t0 = time.time()
+    hyps2, goal2 = skolemize(hyps, goal)
+    lem = spec_function_lemmas(hyps2, goal2)
+    r, s = _check(hyps2, goal2, lem, budget * 1000)
     if r == z3.unsat:
-        return "discharged", dt, None, "z3"
+        return "discharged", time.time() - t0, None, "z3"
     if r == z3.sat:
-        return "failed", dt, s.model(), "z3 sat"
-    # second attempt: different tactic / cvc5 could go here
+        partial = bool(ground_apps(list(hyps2) + [goal2], "Sum_"))
+        return "failed", time.time() - t0, s.model(), "z3 sat" + (" (recursive spec functions instantiated finitely: model needs confirmation by replay)" if partial else "")
     reason = s.reason_unknown()
-    s2 = z3.SolverFor("AUFLIRA") if False else None
-    return "undecided", dt, None, "z3 unknown: %s" % reason
+    qf = [h for h in hyps2 if not has_quantifier(h)]
+    if len(qf) < len(hyps2):
+        lem2 = [l for l in spec_function_lemmas(qf, goal2)]
+        r2, s2 = _check(qf, goal2, lem2, budget * 500)
+        if r2 == z3.unsat:
+            return "discharged", time.time() - t0, None, "z3 (quantifier-free hypotheses)"
+    return "undecided", time.time() - t0, None, "z3 unknown: %s" % reason
+
+
+def has_quantifier(t):
+    seen = set()
+    stack = [t]
+    while stack:
+        u = stack.pop()
+        if u.get_id() in seen:
+            continue
+        seen.add(u.get_id())
+        if z3.is_quantifier(u):
+            return True
+        if z3.is_app(u):
+            stack.extend(u.children())
+    return False
 
 
 def to_smt2(hyps, goal):
@@ -969,7 +1080,19 @@ class Exec:
         return self.R(cont=[st])
 
     def st_Assign(self, s, st):
-        v = self.ev.ev(s.value, st)
+        try:
+            v = self.ev.ev(s.value, st)
+        except Unsupported:
+            # the value is outside the subset; the frame obligation of the store is still generated
+            for t in s.targets:
+                if isinstance(t, ast.Subscript):
+                    try:
+                        b = self.ev.ev(t.value, st)
+                        if isinstance(b, Seq):
+                            self.frame(b, st, s)
+                    except Unsupported:
+                        pass
+            raise
         for t in s.targets:
             self.assign(t, v, st, s)
         return self.R([st])
@@ -1002,7 +1125,9 @@ class Exec:
             base_node = target.value
             base = self.ev.ev(base_node, st)
             if isinstance(base, Seq):
-                if isinstance(target.slice, ast.Slice):
+                self.frame(base, st, node)
+                if isinstance(target.slice, ast.Slice) or (isinstance(target.slice, ast.Tuple) and
+                                                             any(isinstance(e, ast.Slice) for e in target.slice.elts)):
                     raise Unsupported("slice store")
                 iv = self.ev.ev(target.slice, st)
                 if isinstance(iv, Seq):
@@ -1027,6 +1152,12 @@ class Exec:
                 return
             raise Unsupported("store into %r" % (base,))
         raise Unsupported("assignment target %s" % type(target).__name__)
+
+    def frame(self, base, st, node):
+        """frame obligation: a store / in-place mutation must not reach memory of an argument that
+        the contract does not list under 'modifies' (C20 purity; also keeps the value model sound)."""
+        if base.root is not None and base.root not in self.ctx.contract.get("modifies", []):
+            self.ev.need("frame: argument '%s' is not modified" % base.root, st, z3.BoolVal(False), node)
 
     def local_shape(self, name):
         loc = self.ctx.contract.get("locals", {}) if self.loops is self.ctx.contract.get("loops", {}) else {}
